@@ -16,6 +16,7 @@ import re
 
 import vlib
 from props import treeref, refgen
+from props import rtgen
 from props import c07
 
 NS = refgen.NS
@@ -142,6 +143,49 @@ EXTRA_RT = [
 ]
 
 
+# conditionally written numeric attributes (Gen/ElisionTables.v): AId name -> (attribute, body with %s = value, values, extractor, options)
+STROKED = '<path d="M 10 50 L 50 10 L 90 50" fill="none" stroke="black" stroke-width="8" stroke-linejoin="%s" stroke-miterlimit="%%s"/>'
+TPDOC = ('<defs><path id="curve" d="M 10 60 C 30 10 70 10 90 60"/></defs><text font-size="12"><textPath xlink:href="#curve" startOffset="%s">'
+         'on a path</textPath></text>')
+ELISION_RT = [
+    ('StrokeMiterlimit', 'stroke-miterlimit', STROKED % lj, ['4', '1', '10', '2.5'],
+     (lambda t: [first_path(t)['stroke']['miterlimit'], first_path(t)['stroke']['linejoin']]), {}) for lj in ('miter', 'miter-clip', 'round', 'bevel')
+] + [
+    ('StrokeWidth', 'stroke-width', '<path d="M 10 10 L 90 10" stroke="black" stroke-width="%s"/>', ['1', '3', '0.5'], lambda t: first_path(t)['stroke']['width'], {}),
+    ('StrokeOpacity', 'stroke-opacity', '<path d="M 10 10 L 90 10" stroke="black" stroke-opacity="%s"/>', ['1', '0.5', '0.25'],
+     lambda t: first_path(t)['stroke']['opacity'], {}),
+    ('FillOpacity', 'fill-opacity', '<path d="M 10 10 L 90 10 L 50 50 Z" fill-opacity="%s"/>', ['1', '0.5', '0.25'], lambda t: first_path(t)['fill']['opacity'], {}),
+    ('Opacity', 'opacity', '<g opacity="%s"><rect width="50" height="50" fill="red"/><rect x="20" y="20" width="50" height="50" fill="blue"/></g>',
+     ['1', '0.5', '0.25'], lambda t: (first_group_with(t, lambda g: True) or {'opacity': 1})['opacity'], {}),
+    ('StopOpacity', 'stop-opacity', '<linearGradient id="g"><stop offset="0" stop-color="red" stop-opacity="%s"/><stop offset="1" stop-color="blue"/></linearGradient>'
+     '<rect width="50" height="50" fill="url(#g)"/>', ['1', '0.5', '0.25'], lambda t: t['linear_gradients'][0]['stops'][0]['opacity'], {}),
+    ('StrokeDashoffset', 'stroke-dashoffset', '<path d="M 10 10 L 90 10" stroke="black" stroke-dasharray="5 3" stroke-dashoffset="%s"/>', ['0', '-2', '2.5'],
+     lambda t: first_path(t)['stroke']['dashoffset'], {}),
+    ('FontWeight', 'font-weight', '<text x="10" y="50" font-size="20" font-weight="%s">ab</text>', ['400', '700', '100', '900'],
+     lambda t: first_of(t, 'text')['chunks'][0]['spans'][0]['font_weight'], dict(pt=True)),
+    ('LetterSpacing', 'letter-spacing', TEXT % (' letter-spacing="%s"', ''), ['0', '3', '-1.5'],
+     lambda t: first_of(t, 'text')['chunks'][0]['spans'][0]['letter_spacing'], dict(pt=True)),
+    ('WordSpacing', 'word-spacing', '<text x="10" y="50" font-size="20" word-spacing="%s">a b c</text>', ['0', '5', '-4'],
+     lambda t: first_of(t, 'text')['chunks'][0]['spans'][0]['word_spacing'], dict(pt=True)),
+    ('StartOffset', 'startOffset', TPDOC, ['0', '20', '7.5'], lambda t: first_of(t, 'text')['chunks'][0]['flow']['start_offset'], dict(pt=True)),
+]
+
+
+def elision_table():
+    """Gen/ElisionTables.v -> {AId name: constant of the writer's condition (float) or None when the condition is not understood}"""
+    out = {}
+    tp = os.path.join(vlib.COQ, 'Gen', 'ElisionTables.v')
+    if not os.path.exists(tp):
+        return out
+    for m in re.finditer(r'^\s*\("([A-Za-z]+)@[a-z_0-9]+", (CNe|CApprox|COther) (\(?-?\d+(?: # \d+)?\)?|"[^"]*")', open(tp).read(), re.M):
+        if m.group(2) == 'COther':
+            out[m.group(1)] = None
+        else:
+            v = m.group(3).strip('()').split(' # ')
+            out[m.group(1)] = float(v[0]) / (float(v[1]) if len(v) > 1 else 1.0)
+    return out
+
+
 def enum_doc(body):
     return '<svg %s width="100" height="100">%s</svg>' % (NS, body)
 
@@ -164,7 +208,20 @@ def attr_text(enum, attr, value):
 # ------------------------------------------------------------------------------------------------
 # classes of the rendering oracle
 # ------------------------------------------------------------------------------------------------
-def tree_classes(d, w, first_trip_differs=True):
+def textpaths_written_properly(sk, prefix, tp_ids):
+    """every <textPath> of the written skeleton points at prefix + (a text-path id of the tree) and <defs> holds a <path> of that id"""
+    def_paths, hrefs = set(), []
+
+    def visit(e, parent):
+        if e[0] == 'path' and parent is not None and parent[0] == 'defs' and e[1].get('id'):
+            def_paths.add(e[1]['id'])
+        if e[0] == 'textPath':
+            hrefs.append(e[1].get('xlink:href', ''))
+    c07.sk_walk(sk, visit)
+    return bool(hrefs) and all(h.startswith('#') and h[1:] in def_paths and h[1:] in set(prefix + i for i in tp_ids) for h in hrefs)
+
+
+def tree_classes(d, w, first_trip_differs=True, skeleton=None):
     """known classes whose predicate holds for the tree T (dump) and the options; each explains a rendering difference"""
     out = []
     prefix = w.get('prefix') or ''
@@ -178,7 +235,10 @@ def tree_classes(d, w, first_trip_differs=True):
     # the feImage target is also rendered in place: two elements carry its id and href="#id" resolves to the other one
     if any(k and k[0]['id'] and k[0]['id'] in root_ids for k in fe_kids):
         out.append('feimage-target-twice')
-    if w.get('pt') and any(k == 'textpath' and i in root_ids for k, ptr, i, ctx, via in wk.defs):
+    # only when the writer did its part (the <defs> copy carries prefix + id and the textPath points at prefix + id): a
+    # dangling or doubly prefixed text-path reference is NOT this class (seeded C08-14)
+    if w.get('pt') and any(k == 'textpath' and i in root_ids for k, ptr, i, ctx, via in wk.defs) and \
+            (skeleton is None or textpaths_written_properly(skeleton, prefix, set(i for k, ptr, i, ctx, via in wk.defs if k == 'textpath'))):
         out.append('textpath-id-twice')
     if any(p['kind']['k'] == 'ColorMatrix' and p['kind']['kind']['k'] == 'Saturate' and isinstance(p['kind']['kind']['v'], (int, float))
            and p['kind']['kind']['v'] > 1 for f in d['filters'] for p in f['primitives']):
@@ -216,6 +276,8 @@ def run(ctx):
     rng = ctx.rng
     quick = ctx.tier == 'quick'
     ctx.cov['trusted_base'] = vlib.BASE_TRUSTED + [
+        "tools/gen_roundtrip.py: the data-flow walk from every id / reference write site of writer.rs back to tree ids, the prefix and literals "
+        "(cross-checked by the id-once correspondence on the written text); svgtypes' IRI / FuncIRI reading is a hand model (external crate)",
         "tools/gen_enums.py: pattern extraction of the parser / writer string tables (cross-checked by the enum-rt op: the "
         "constructor the real parser produces for every spelling must be the one the generated table says)",
         "the parser default of an enum is taken from `impl Default` / the `_` arm; usvg::Options rendering-mode overrides are not modelled",
@@ -259,6 +321,10 @@ def run(ctx):
     for name, body, values, ext, wo in EXTRA_RT:
         for s in values:
             ecases.append(dict(enum=name, spelling=s, expect=None, doc=enum_doc(body % s), ext=ext, wo=wo))
+    etab = elision_table()
+    for aid, attr, body, values, ext, wo in ELISION_RT:
+        for v in values:
+            ecases.append(dict(enum='elision/' + attr, spelling=v, expect=None, doc=enum_doc(body % v), ext=ext, wo=wo, elide=(aid, attr, float(v))))
     eouts = ctx.rvh_batch(binp, 'c08-rt', ["-\t%s\t%s" % (c07.wopts_str(c['wo']), c['doc']) for c in ecases])
     ehist = {}
     for c, o in zip(ecases, eouts):
@@ -289,6 +355,15 @@ def run(ctx):
             vb = c['ext'](r['b'])
         except (KeyError, IndexError, TypeError) as e:
             vb = 'missing (%s)' % e
+        if c.get('elide') and c['elide'][0] in etab and va == vb:
+            # the generated table against the real writer: the attribute is in the written text iff the table's condition says so
+            aid, attr, v = c['elide']
+            const = etab[aid]
+            in_text = re.search(r'[\s"\']%s=' % re.escape(attr), r.get('text', '')) is not None
+            if const is not None and in_text != (v != const):
+                ctx.violation("elision tie: %s=%r is %s by the real writer, Gen/ElisionTables.v (condition constant %r) says the opposite"
+                              % (attr, c['spelling'], 'written' if in_text else 'not written', const),
+                              dict(doc=c['doc'], wopts=c07.wopts_str(c['wo']), op='c08-rt', text=r.get('text', '')[:1500]))
         if va != vb:
             cls = None
             text = ("enum-rt: %s=%r is %s in the tree, but %s after writing and parsing again" % (c['enum'], c['spelling'], va, vb))
@@ -300,6 +375,36 @@ def run(ctx):
     ctx.cov['enum_rt_cases'] = len(ecases)
     ctx.cov['enum_rt_per_enum'] = ehist
     ctx.cov['exhaustive_tables'] = sorted(tables.keys())
+
+    # ------------------------------------------------------------------ K: id-once (C08_id_prefixed_once on the real output)
+    # every id="" / url(#..) / xlink:href="#.." of the written text is prefix + an id of the tree, once; on the text matrix also:
+    # every reference has a definition.  Documents: the text x textPath matrix, the crafted reference-graph documents.
+    tdocs = rtgen.text_docs()
+    idocs = [(lab, d, True) for lab, d in tdocs] + [('crafted#%d' % i, d, False) for i, d in enumerate(refgen.crafted_docs())]
+    icases = [(lab, d, own, w) for lab, d, own in idocs for w in rtgen.OPTION_MATRIX if own or w['prefix']]
+    iouts = ctx.rvh_batch(binp, 'c08-rt', ["-\t%s\t%s" % (c07.wopts_str(w), d) for lab, d, own, w in icases])
+    n_id = n_idv = 0
+    for (lab, d, own, w), o in zip(icases, iouts):
+        r = jload(o)
+        rep = dict(doc=d, wopts=c07.wopts_str(w), op='c08-rt')
+        if 'a' not in r or 'text' not in r:
+            if own:
+                ctx.violation("id-once: the %s document does not parse / write: %s" % (lab, str(r)[:200]), rep)
+            continue
+        wk = treeref.Walk(r['a'])
+        probs = rtgen.id_once_problems(r['text'], r['a'], wk, w['prefix'])
+        if not own:
+            # the crafted documents hold known dangling references (closure is C07's matter): only the prefix form is checked
+            probs = [x for x in probs if 'has no written definition' not in x]
+        has_tp = any(k == 'textpath' for k, ptr, i, ctx_, via in wk.defs)
+        ctx.note_case("id-once/%s|%s" % (lab, c07.wopts_str(w)), nontrivial=bool(w['prefix']) or has_tp)
+        n_id += 1
+        n_idv = n_idv + 1 if probs else n_idv
+        if probs and n_idv <= 6:
+            ctx.violation("id-once: %s [%s]: %s (C08_id_prefixed_once / C08_written_refs_resolve say: every id and every reference is "
+                          "prefix ++ id, exactly once)" % (lab, c07.wopts_str(w), '; '.join(probs[:3])),
+                          dict(rep, problems=probs[:6], text=r['text'][:1500]))
+    ctx.cov['id_once_cases'] = n_id
 
     # ------------------------------------------------------------------ S: round-trip rendering
     wit = sorted(os.path.join(WITNESS, f) for f in os.listdir(WITNESS) if f.endswith('.svg'))
@@ -331,6 +436,14 @@ def run(ctx):
             cases.append((k, dict(prefix=pre, pt=True)))
         if not quick:
             cases.append((k, dict(prefix='é-ü_' if k in strict else rng.choice(['pre-'] + esc_prefixes), pt=False)))
+    # the text matrix: {plain text, tspans + decorations, textPath in every position} x {no prefix, prefix} x {flattened, preserve_text},
+    # always complete, fonts loaded; no known class excuses these documents (appended last: the indices of the others stay)
+    for lab, d in tdocs:
+        docs.append(d)
+        labels.append('text-matrix/' + lab)
+        strict.add(len(docs) - 1)
+        for w in rtgen.OPTION_MATRIX:
+            cases.append((len(docs) - 1, dict(w)))
     outs = ctx.rvh_batch(binp, 'c08-render', ["-\t%s\t%s" % (c07.wopts_str(w), docs[k]) for k, w in cases], per_item_timeout=90, chunk=6)
     # trees for the class predicates (only computed for cases that differ)
     hist = dict(rendered=0, rejected=0, identical_1x=0, within_tol=0, second_identical=0, skipped_2x=0, drift=0, text_fixed_after_1=0,
@@ -370,6 +483,10 @@ def run(ctx):
         hist['text_fixed_after_1'] += 1 if r['fixed2'] else 0
         hist['text_fixed_after_2'] += 1 if r['fixed3'] else 0
         nonblank = max([s['nonblank'] for s in r['r']] + [0])
+        if labels[k].startswith('text-matrix/') and nonblank < 100:
+            # the oracle would be blind: the text of the matrix documents must actually be drawn (fonts loaded)
+            ctx.violation("text matrix: %s renders only %d non-blank pixels: text is not drawn (fonts not loaded?)" % (lab, nonblank),
+                          dict(doc=docs[k], wopts=c07.wopts_str(w), op='c08-render'), found_input=False)
         ctx.note_case("%s|%s" % (labels[k] if docs[k].startswith('@') else docs[k], c07.wopts_str(w)), nontrivial=nonblank > 0)
         if r['r'] and r['r'][0]['n12'] == 0 and r['r'][0]['max12'] == 0:
             hist['identical_1x'] += 1
@@ -400,7 +517,7 @@ def run(ctx):
             d = wr.get('dump', {})
             r = jload(outs[ci])
             first_bad = any(s['big12'] > 0 or s['n12'] > max(40, s['w']) for s in r.get('r', []))
-            klasses = tree_classes(d, w, first_bad) if 'root' in d else []
+            klasses = tree_classes(d, w, first_bad, wr.get('skeleton')) if 'root' in d else []
             if kind == 'reparse':
                 strs = c07.tree_strings(d) + [w.get('prefix') or ''] if 'root' in d else []
                 klasses = ['unescaped-xml-char'] if any(set(s) & c07.XML_BREAKERS for s in strs) else []
@@ -425,7 +542,39 @@ def run(ctx):
     # ------------------------------------------------------------------ proof broke: search
     if not proof_ok and not ctx.violations:
         found = False
-        if tables:
+        # an id site that does not write prefix ++ id exactly once (Gen/IdSites.v against Model/RoundTrip.v `canon`)
+        isp = os.path.join(vlib.COQ, 'Gen', 'IdSites.v')
+        canon = {'SDef': '[KPrefix; KRaw]', 'SIri': '[KLit "url(#"; KPrefix; KRaw; KLit ")"]', 'SHref': '[KLit "#"; KPrefix; KRaw]'}
+        if os.path.exists(isp) and any('RoundTrip' in f or 'C08' in f for f in res['failed']):
+            for m in re.finditer(r'^\s*\("([^"]*)", (SDef|SIri|SHref), (\[.*?\])\)[;]?$', open(isp).read(), re.M):
+                if m.group(3) != canon[m.group(2)]:
+                    lab = 'textpath-defs' if 'text_path' in m.group(1) else 'textpath-in-mask'
+                    ctx.violation("model counterexample: the id site %s of writer.rs writes %s instead of %s (C08_id_prefixed_once fails); "
+                                  "no document of the matrix shows it in the written text" % (m.group(1), m.group(3), canon[m.group(2)]),
+                                  dict(doc=dict(tdocs)[lab], wopts=c07.wopts_str(dict(prefix='doc1-', pt=True)), op='c08-rt', site=m.group(1),
+                                       failed_files=res['failed'], broken_ties=broken), found_input=False)
+                    found = True
+                    break
+        if not found and any(v is None for v in etab.values()) or (not found and any('Elision' in f for f in res['failed'])):
+            # a conditionally written attribute whose condition is not `value differs from the parser default`: try every
+            # document of that attribute (all four line joins for the miter limit)
+            badaids = [a for a, v in etab.items() if v is None] or [x[0] for x in ELISION_RT]
+            for c, o in zip(ecases, eouts):
+                if c.get('elide') and c['elide'][0] in badaids:
+                    r = jload(o)
+                    try:
+                        va, vb = c['ext'](r['a']), c['ext'](r['b'])
+                    except (KeyError, IndexError, TypeError):
+                        continue
+                    if va != vb:
+                        found = True     # already reported above by enum-rt with this document
+                        break
+            if not found and badaids:
+                ctx.violation("C08_elision_numeric_sound fails: the condition under which writer.rs writes %s is not `the value differs from "
+                              "the parser default`; no document of the elision rows changes" % ', '.join(badaids),
+                              dict(failed_files=res['failed'], broken_ties=broken), found_input=False)
+                found = True
+        if tables and not found:
             # the generated tables themselves give the witness: a constructor whose written spelling does not parse back
             for enum, tab in tables.items():
                 for v in tab['variants']:
